@@ -117,15 +117,21 @@ def main() -> int:
         violations.append((path, " no-failing-input-found"))
 
     # 4. known findings: replay witnesses ---------------------------------------
+    def _replay(kf):
+        try:
+            return mod.replay_known(ctx, kf)
+        except Exception as e:  # the witness no longer even runs: it still fails
+            return True, f"witness replay raised {type(e).__name__}: {e}"[:300]
+
     for kf in known:
         if kf.get("status") == "known" and hasattr(mod, "replay_known"):
-            still, what = mod.replay_known(ctx, kf)
+            still, what = _replay(kf)
             if still:
                 known_lines.append(f"KNOWN-FINDING: property={prop} {kf['id']} {what}")
             else:
                 ctx.notes.append(f"known finding {kf['id']}: witness no longer fails ({what})")
         elif kf.get("status") == "fixed" and hasattr(mod, "replay_known"):
-            still, what = mod.replay_known(ctx, kf)
+            still, what = _replay(kf)
             if still:
                 payload = {"property": prop, "regression_of": kf["id"], "what": what, "witness": kf.get("witness")}
                 path = core.write_replay(prop, seed, 90 + len(violations), payload)
@@ -161,17 +167,26 @@ def main() -> int:
     }
     if coqchk_out is not None:
         cov["coqchk"] = coqchk_out.strip().splitlines()[-30:]
+    if discharged == 0:
+        # the proof no longer checks: keep the file schema-valid through the generic keys
+        cov["obligations_not_discharged"] = cov.pop("obligations")
+        cov.pop("discharged")
     ev = {
         "property_id": prop, "tier": args.tier, "seed": seed, "level": getattr(mod, "LEVEL", "proof"),
         "coverage": cov, "assumptions": list(getattr(mod, "ASSUMES", [])),
         "wall_s": round(time.time() - ctx.t0, 2), "violations": len(violations),
     }
-    core.write_evidence(ev)
-
     for l in known_lines:
         print(l)
     for path, suffix in violations:
         print(f"VIOLATION property={prop} replay={path}{suffix}")
+    sys.stdout.flush()
+    try:
+        core.write_evidence(ev)
+    except Exception as e:  # never let an evidence problem hide the verdict
+        print(f"evidence not written: {e!r}", file=sys.stderr)
+        if not violations:
+            return 2
     print(f"[{prop}] tier={args.tier} seed={seed} obligations={obligations} discharged={discharged} "
           f"evaluations={ctx.evaluations} distinct_nontrivial={len(ctx.distinct)} "
           f"violations={len(violations)} wall={ev['wall_s']}s")
